@@ -762,6 +762,11 @@ class GenFunctions(object):
                         newcls.fmtdict.update(targs.fmtdict)
                     if targs.options:
                         newcls.options.update(targs.options)
+                        # The wrap flags were computed by clone,
+                        # before the options of this instantiation.
+                        newcls.wrap = ast.WrapFlags(newcls.options)
+                        for fcn in newcls.functions:
+                            fcn.wrap = ast.WrapFlags(fcn.options)
 
                     newcls.expand_format_templates()
                     newcls.typemap = typemap.create_class_typemap(newcls)
